@@ -151,7 +151,8 @@ func statusOnly(res *nfsv4.Compound4res) string {
 }
 
 func (r *run) opSetcid(l, v int) bool {
-	q := &request{id: -1, kind: "setcid"}
+	q := &request{id: -1, kind: "setcid", enters: true}
+	r.touch(r.client(l, v))
 	var ops []nfsv4.NfsArgop4
 	if r.v40() {
 		ops = []nfsv4.NfsArgop4{nfsx.SetClientID(longName(l), byte(v))}
@@ -221,7 +222,7 @@ func (r *run) opConfirm(l, v int) bool {
 	if c == nil {
 		return false
 	}
-	q := &request{id: -1, kind: "confirm", c: c}
+	q := &request{id: -1, kind: "confirm", c: c, enters: true}
 	var ops []nfsv4.NfsArgop4
 	if r.v40() {
 		ops = []nfsv4.NfsArgop4{nfsx.SetClientIDConfirm(c.shortID, c.confirmVer)}
@@ -285,7 +286,7 @@ func (r *run) opDestroySession(l, v, i int) bool {
 		return false
 	}
 	s := c.sessions[i]
-	q := &request{id: -1, kind: "dsess"}
+	q := &request{id: -1, kind: "dsess", enters: true}
 	q.finish = func(q *request, final string) {
 		st, _ := lastResult(q.res)
 		if st == stOK || st == stBadSess {
@@ -302,7 +303,8 @@ func (r *run) opDestroyClient(l, v int) bool {
 	if c == nil {
 		return false
 	}
-	q := &request{id: -1, kind: "dcid"}
+	q := &request{id: -1, kind: "dcid", enters: true}
+	r.touch(c)
 	q.finish = func(q *request, final string) {
 		st, _ := lastResult(q.res)
 		if st == stOK || st == stStaleCID {
@@ -319,7 +321,7 @@ func (r *run) opRenew(l, v int) bool {
 	if c == nil {
 		return false
 	}
-	q := &request{id: -1, kind: "renew", c: c}
+	q := &request{id: -1, kind: "renew", c: c, enters: true}
 	var body []nfsv4.NfsArgop4
 	var mb []string
 	if r.v40() {
@@ -378,7 +380,7 @@ func (r *run) opOpen(id, l, v, key, acc, how int, claim string, f, name int, o o
 	if how < 0 || how > 3 || acc < 0 || acc > 4 || r.ownerBusy(c, key) {
 		return false
 	}
-	q := &request{id: id, kind: "open", c: c, line: r.lastLine, noRenew: o.os != 0}
+	q := &request{id: id, kind: "open", c: c, line: r.lastLine, noRenew: o.os != 0, enters: o.fh != "-1"}
 	var put []nfsv4.NfsArgop4
 	var fh, claimN int
 	var openOp nfsv4.NfsArgop4
@@ -469,6 +471,13 @@ func (r *run) opOpen(id, l, v, key, acc, how int, claim string, f, name int, o o
 		r.noteReply(q, false)
 		advance := false
 		var openRes *nfsv4.Open4res_NFS4_OK
+		sawOpen := false
+		for _, x := range q.res.Resarray {
+			if _, ok := x.(*nfsv4.NfsResop4_OP_OPEN); ok {
+				sawOpen = true
+			}
+		}
+		q.enters = q.enters && sawOpen
 		for _, x := range q.res.Resarray {
 			if oo, ok := x.(*nfsv4.NfsResop4_OP_OPEN); ok {
 				openRes, _ = oo.Opopen.(*nfsv4.Open4res_NFS4_OK)
@@ -608,7 +617,7 @@ func (r *run) opStateOp(kind string, x, acc int, o opts) bool {
 	if s != nil && !s.lock && r.ownerBusy(s.c, s.key) {
 		return false
 	}
-	q := &request{id: -1, kind: kind, c: c, noRenew: o.os != 0}
+	q := &request{id: -1, kind: kind, c: c, noRenew: o.os != 0, enters: x >= 0}
 	if s != nil {
 		q.leaseOf = s.c
 	}
@@ -670,6 +679,7 @@ func (r *run) opStateOp(kind string, x, acc int, o opts) bool {
 		st, _ := lastResult(q.res)
 		real := fmt.Sprintf("st=%d", st)
 		mr, reached := mainResult(q, len(put))
+		q.enters = q.enters && reached
 		r.noteReply(q, reached && st == stOK)
 		if reached && r.v40() && s != nil && !s.lock && shouldAdvance(st) && o.os >= 0 {
 			r.ooSeq[okey] = oseq
@@ -742,7 +752,7 @@ func (r *run) opLock(id, x, lo, ty int, off, length uint64, fresh bool, o opts) 
 	if fresh && s != nil && !s.lock && r.ownerBusy(s.c, s.key) {
 		return false
 	}
-	q := &request{id: -1, kind: "lock", c: c, noRenew: o.os != 0 || o.ls != 0}
+	q := &request{id: -1, kind: "lock", c: c, noRenew: o.os != 0 || o.ls != 0, enters: true}
 	if s != nil {
 		q.leaseOf = s.c
 	}
@@ -786,6 +796,7 @@ func (r *run) opLock(id, x, lo, ty int, off, length uint64, fresh bool, o opts) 
 		st, _ := lastResult(q.res)
 		real := fmt.Sprintf("st=%d", st)
 		mr, reached := mainResult(q, len(put))
+		q.enters = q.enters && reached
 		r.noteReply(q, reached && st == stOK)
 		if reached && r.v40() {
 			if fresh && shouldAdvance(st) && o.os >= 0 && s != nil {
@@ -873,7 +884,7 @@ func (r *run) opLocku(x int, off, length uint64, o opts) bool {
 	if c == nil {
 		return false
 	}
-	q := &request{id: -1, kind: "locku", c: c, noRenew: o.ls != 0}
+	q := &request{id: -1, kind: "locku", c: c, noRenew: o.ls != 0, enters: true}
 	if s != nil {
 		q.leaseOf = s.c
 	}
@@ -896,6 +907,7 @@ func (r *run) opLocku(x int, off, length uint64, o opts) bool {
 		st, _ := lastResult(q.res)
 		real := fmt.Sprintf("st=%d", st)
 		mr, reached := mainResult(q, len(put))
+		q.enters = q.enters && reached
 		r.noteReply(q, reached && st == stOK)
 		if reached && r.v40() && shouldAdvance(st) && o.ls >= 0 && s != nil {
 			r.loSeq[lkey] = lseq
@@ -931,7 +943,7 @@ func (r *run) opLockt(l, v, lo, f, ty int, off, length uint64, o opts) bool {
 	if !ok {
 		return false
 	}
-	q := &request{id: -1, kind: "lockt", c: c}
+	q := &request{id: -1, kind: "lockt", c: c, enters: o.fh == ""}
 	body := append(append([]nfsv4.NfsArgop4{}, put...), nfsx.LockT(lockType(ty), off, length, c.shortID, lockOwnerName(lo)))
 	ops, pre, tag, ok := r.wrap(q, c, body...)
 	if !ok {
@@ -941,6 +953,7 @@ func (r *run) opLockt(l, v, lo, f, ty int, off, length uint64, o opts) bool {
 		st, _ := lastResult(q.res)
 		real := fmt.Sprintf("st=%d", st)
 		mr, reached := mainResult(q, len(put))
+		q.enters = q.enters && reached
 		r.noteReply(q, reached && (st == stOK || st == stDenied))
 		if reached {
 			if lr, ok := mr.(*nfsv4.NfsResop4_OP_LOCKT); ok {
@@ -966,7 +979,7 @@ func (r *run) opReleaseLockOwner(l, v, lo int) bool {
 	if c == nil {
 		return false
 	}
-	q := &request{id: -1, kind: "rlo", c: c}
+	q := &request{id: -1, kind: "rlo", c: c, enters: true}
 	q.finish = func(q *request, final string) {
 		st, _ := lastResult(q.res)
 		r.noteReply(q, st == stOK)
@@ -1023,7 +1036,7 @@ func (r *run) opIO(id int, kind string, x, f int, o opts) bool {
 	if !ok {
 		return false
 	}
-	q := &request{id: id, kind: "io", c: c, ioLeaf: f, ioState: s}
+	q := &request{id: id, kind: "io", c: c, ioLeaf: f, ioState: s, enters: x >= 0}
 	if s != nil {
 		q.leaseOf = s.c
 	}
@@ -1060,6 +1073,7 @@ func (r *run) opIO(id int, kind string, x, f int, o opts) bool {
 	q.finish = func(q *request, final string) {
 		st, _ := lastResult(q.res)
 		_, reached := mainResult(q, len(put))
+		q.enters = q.enters && reached
 		r.noteReply(q, reached && st == stOK && x >= 0)
 		if reached && st == stOK {
 			r.out.flags["io-"+kind] = true
